@@ -237,6 +237,7 @@ func runC06(c *core.Ctx) {
 	})
 	c06Typed(c)
 	c06Unplaceable(c)
+	c06Matrices(c)
 	c06BadArguments(c, s, graphs[0])
 	c.R.Bound = fmt.Sprintf("documents within %d mutations of the bases; single faults (thorough: + all pairs for logs <= 10); leaf lists of four behind typed Go slices and []interface{} x all 16 sets of failing positions x 3 ways of resolving", k)
 	if !completed {
@@ -654,6 +655,131 @@ func c06Unplaceable(c *core.Ctx) {
 					c.Violation("err-diff", attrs, detail)
 				default:
 					c.Outcome("no-member-agree")
+				}
+			}
+		}
+	}
+}
+
+// ---- lists of lists of leaves (a 2 x 3 matrix, not square) behind typed Go matrices ([][]int64, [][]float64) and behind
+// []interface{} of []interface{}: every single cell and every pair of cells made unrepresentable in turn - null in that cell,
+// one entry whose path ends in row and column of that cell, the other cells as they are.
+
+type C06MQuery struct {
+	Grid   interface{}
+	Big    interface{}
+	Ratios interface{}
+}
+type c06MRoot struct{ Query *C06MQuery }
+type c06MRes struct{ q *C06MQuery }
+
+func (r c06MRes) Resolve(f *ggql.Field, args map[string]interface{}) (interface{}, error) {
+	switch f.Name {
+	case "grid":
+		return r.q.Grid, nil
+	case "big":
+		return r.q.Big, nil
+	case "ratios":
+		return r.q.Ratios, nil
+	}
+	return r, nil
+}
+
+func c06Matrices(c *core.Ctx) {
+	const sdl = "type Query { grid: [[Int]] big: [[Int64!]!] ratios: [[Float]] }\n"
+	const rows, cols = 2, 3
+	var masks []int
+	for a := 0; a < rows*cols; a++ {
+		masks = append(masks, 1<<uint(a))
+		for b := a + 1; b < rows*cols; b++ {
+			masks = append(masks, 1<<uint(a)|1<<uint(b))
+		}
+	}
+	var idx int64
+	for _, mask := range masks {
+		for _, generic := range []bool{false, true} {
+			for mode := 0; mode < 2; mode++ {
+				idx++
+				if !c.OwnsIdx(1<<49 + idx) {
+					continue
+				}
+				grid, big, ratios := make([][]int64, rows), make([][]float64, rows), make([][]float64, rows)
+				wg, wb, wr := make([]interface{}, rows), make([]interface{}, rows), make([]interface{}, rows)
+				var wantPaths []string
+				for i := 0; i < rows; i++ {
+					grid[i], big[i], ratios[i] = make([]int64, cols), make([]float64, cols), make([]float64, cols)
+					rg, rb, rr := make([]interface{}, cols), make([]interface{}, cols), make([]interface{}, cols)
+					for j := 0; j < cols; j++ {
+						n := i*cols + j
+						grid[i][j], big[i][j], ratios[i][j] = int64(n+1), float64(100*(n+1)), float64(n)+0.5
+						rg[j], rb[j], rr[j] = n+1, 100*(n+1), float64(n)+0.5
+						if mask&(1<<uint(n)) != 0 {
+							grid[i][j], big[i][j], ratios[i][j] = 1<<31, math.Inf(1), math.NaN()
+							rg[j], rb[j], rr[j] = nil, nil, nil
+							for _, f := range []string{"grid", "big", "ratios"} {
+								wantPaths = append(wantPaths, fmt.Sprintf("%s/%d/%d", f, i, j))
+							}
+						}
+					}
+					wg[i], wb[i], wr[i] = rg, rb, rr
+				}
+				want := map[string]interface{}{"grid": wg, "big": wb, "ratios": wr}
+				q := &C06MQuery{Grid: grid, Big: big, Ratios: ratios}
+				if generic {
+					gen := func(at func(i, j int) interface{}) []interface{} {
+						out := make([]interface{}, rows)
+						for i := range out {
+							row := make([]interface{}, cols)
+							for j := range row {
+								row[j] = at(i, j)
+							}
+							out[i] = row
+						}
+						return out
+					}
+					q.Grid, q.Big = gen(func(i, j int) interface{} { return grid[i][j] }), gen(func(i, j int) interface{} { return big[i][j] })
+					q.Ratios = gen(func(i, j int) interface{} { return ratios[i][j] })
+				}
+				var root *ggql.Root
+				if mode == 0 {
+					root = ggql.NewRoot(&c06MRoot{Query: q})
+				} else {
+					root = ggql.NewRoot(c06MRes{q})
+				}
+				if err := root.ParseString(sdl); err != nil {
+					panic(core.EngineError{Msg: "C06 matrix schema refused: " + err.Error()})
+				}
+				c.Eval()
+				c.R.Distinct++
+				c.Nontrivial()
+				var res map[string]interface{}
+				pi := core.Safe(func() { res = root.ResolveString("{ grid big ratios }", "", nil) })
+				detail := map[string]interface{}{"failing_cells_mask": mask, "carrier": map[bool]string{false: "typed matrices ([][]int64, [][]float64)", true: "[]interface{} of []interface{}"}[generic], "mode": []string{"reflection", "Resolver"}[mode], "response": res}
+				if pi != nil {
+					c.Violation("panic", map[string]string{"site": pi.Site, "class": pi.Class}, detail)
+					continue
+				}
+				var gotPaths []string
+				if es, ok := res["errors"].([]interface{}); ok {
+					for _, e := range es {
+						if em, ok := e.(map[string]interface{}); ok {
+							gotPaths = append(gotPaths, world.PathString(asPath(em["path"])))
+						}
+					}
+				}
+				sort.Strings(gotPaths)
+				sort.Strings(wantPaths)
+				attrs := map[string]string{"part": "matrices", "strategy": []string{"FS", "RS"}[mode], "carrier": map[bool]string{false: "typed", true: "generic"}[generic]}
+				if dd := world.Diff(world.Canon(want), world.Canon(res["data"]), ""); dd != "" {
+					detail["diff"] = dd
+					c.Outcome("matrix-data-diff")
+					c.Violation("data-diff", attrs, detail)
+				} else if !world.SameStrings(gotPaths, wantPaths) {
+					detail["diff"] = fmt.Sprintf("error paths: want %v got %v", wantPaths, gotPaths)
+					c.Outcome("matrix-err-diff")
+					c.Violation("err-diff", attrs, detail)
+				} else {
+					c.Outcome("matrix-agree")
 				}
 			}
 		}
